@@ -197,6 +197,16 @@ def check(prop, tier):
                 continue
             o = sc['outs'][li % len(sc['outs'])]
             jobs.append((sc, o['cfg'], o['out'], 6 if tier == 'quick' else 10, seed() * 1000 + li))
+        # every option set: dry runs too (a parallel dry run writes as little as the single-threaded one)
+        outd, std = p_tool.enumerate_scenarios(res, 'par-scenarios-dry', 'TreesSmall', 'TRUE', 2, 'Cfgs_dry', work, 'FALSE')
+        dl = [l for l in open(outd, errors='replace') if l.startswith('"{') and '\\"exit\\":1' in l]
+        os.unlink(outd)
+        for li, line in enumerate(rnd.sample(dl, min(len(dl), 120 if tier == 'quick' else 1500))):
+            sc = json.loads(json.loads(line))
+            dry = [o for o in sc['outs'] if o['cfg']['dry']]
+            if sc['outs'][0]['out']['adversarial'] or not dry:
+                continue
+            jobs.append((sc, dry[0]['cfg'], dry[0]['out'], 2 if tier == 'quick' else 4, seed() * 1000 + 500000 + li))
         with Pool(12) as pool:
             outs = pool.map(par_job, jobs, chunksize=2)
         all_traces = []
